@@ -96,10 +96,55 @@ def scenario(vec, tag, epoch=0, scale=1, must_be_exact=False):
     return {"tag": tag, "w": vec["w"] * scale, "epoch": epoch, "arr": arr}
 
 
+def parts_of(sc):
+    """The arrivals of a scenario as lists of reception indices (0-based, consecutive).  sc["parts"]
+    (optional) gives the number of receptions each arrival carries; default: one each."""
+    parts, pos = [], 0
+    for k in sc.get("parts") or [1] * len(sc["arr"]):
+        parts.append(list(range(pos, pos + k)))
+        pos += k
+    if pos != len(sc["arr"]):
+        raise core.ToolError("scenario parts do not cover the receptions")
+    return parts
+
+
+def multify(sc, rng):
+    """A variant of the scenario in which some arrivals carry several receptions (what a network feed
+    such as SeRo hands over: one frame with the receptions of several sensors).  Consecutive receptions
+    of the same frame and timestamp are merged into one arrival with probability 1/2, and one arrival
+    in three gets one or two extra receptions (other receivers).  The history TLC judges is the
+    resulting per-reception history; nothing about the expected output is decided here."""
+    arr, parts = [], []
+    for (f, t, rx) in sc["arr"]:
+        if parts and arr[-1][0] == f and arr[-1][1] == t and rng.random() < 0.5:
+            parts[-1] += 1
+            arr.append((f, t, rx))
+            continue
+        arr.append((f, t, rx))
+        parts.append(1)
+        if rng.random() < 1 / 3:
+            extra = rng.choice((1, 1, 2))
+            for e in range(extra):
+                arr.append((f, t, (rx + 1 + e) % 16))
+            parts[-1] += extra
+    if max(parts) == 1:           # make sure the variant differs from the original
+        f, t, rx = arr[-1]
+        arr.append((f, t, (rx + 1) % 16))
+        parts[-1] += 1
+    out = dict(sc, arr=arr, parts=parts, tag=sc["tag"] + ":multi")
+    out.pop("burst", None)
+    return out
+
+
 def request_of(sc):
-    rq = {"cmd": "dedup", "w": sc["w"],
-          "arrivals": [{"ts": ts_of(sc["epoch"], t), "frame": frame_hex(f), "id": (i + 1) * 16 + rx}
-                       for i, (f, t, rx) in enumerate(sc["arr"])]}
+    arrivals = []
+    for idx in parts_of(sc):
+        f, t, _rx = sc["arr"][idx[0]]
+        a = {"ts": ts_of(sc["epoch"], t), "frame": frame_hex(f), "id": (idx[0] + 1) * 16 + sc["arr"][idx[0]][2]}
+        if len(idx) > 1:
+            a["ids"] = [(i + 1) * 16 + sc["arr"][i][2] for i in idx]
+        arrivals.append(a)
+    rq = {"cmd": "dedup", "w": sc["w"], "arrivals": arrivals}
     if sc.get("cap"):
         rq["cap"] = sc["cap"]       # small output channel: the consumer exerts back-pressure
     if sc.get("burst", 0) > 1:
@@ -137,12 +182,19 @@ def events_of(sc, reply):
                         "out": [convert_record(r, hex2idx, ts2tick) for r in outs[g]]})
         n_expected = len(groups)
     else:
-        for i, (f, t, rx) in enumerate(sc["arr"]):
-            if i >= len(outs):
+        parts = parts_of(sc)
+        for a, idx in enumerate(parts):
+            if a >= len(outs):
                 break
-            evs.append({"e": "arrive", "id": i + 1, "f": f, "t": t, "rx": rx,
-                        "out": [convert_record(r, hex2idx, ts2tick) for r in outs[i]]})
-        n_expected = n_arr
+            recs = [convert_record(r, hex2idx, ts2tick) for r in outs[a]]
+            if len(idx) == 1:
+                f, t, rx = sc["arr"][idx[0]]
+                evs.append({"e": "arrive", "id": idx[0] + 1, "f": f, "t": t, "rx": rx, "out": recs})
+            else:                   # one arrival carrying several receptions
+                evs.append({"e": "multi", "out": recs,
+                            "arr": [{"id": i + 1, "f": sc["arr"][i][0], "t": sc["arr"][i][1], "rx": sc["arr"][i][2],
+                                     "last": i == idx[-1]} for i in idx]})
+        n_expected = len(parts)
     crashed = reply is None or bool(reply.get("panic")) or len(outs) != n_expected
     evs.append({"e": "close", "panic": crashed,
                 "out": [convert_record(r, hex2idx, ts2tick) for r in (reply or {}).get("after_close", [])]})
@@ -299,8 +351,9 @@ def replay_case(sc, reply, stage):
                 "scenario": {"tag": sc["tag"], "tool": "decode1090", "w": sc["w"], "epoch": sc["epoch"],
                              "arr": [list(a) for a in sc["arr"]]}}
     return {"tag": sc["tag"], "w_ms": sc["w"], "epoch_s": sc["epoch"], "rejected_at": stage,
-            "arrivals": [{"frame": a["frame"], "ts": a["ts"], "tick_1_8ms": t, "reception": i + 1, "receiver": rx}
-                         for i, (a, (f, t, rx)) in enumerate(zip(req["arrivals"], sc["arr"]))],
+            "arrivals": [{"frame": a["frame"], "ts": a["ts"], "tick_1_8ms": sc["arr"][idx[0]][1],
+                          "receptions": [i + 1 for i in idx], "receivers": [sc["arr"][i][2] for i in idx]}
+                         for a, idx in zip(req["arrivals"], parts_of(sc))],
             "code_emitted_per_arrival": (reply or {}).get("out"),
             "code_emitted_after_close": (reply or {}).get("after_close"),
             "driver_crashed": reply is None or bool(reply.get("panic")),
@@ -309,7 +362,7 @@ def replay_case(sc, reply, stage):
             "output_channel_capacity": sc.get("cap") or "n+1 (never full)",
             "queued_burst_size": sc.get("burst", 0) or "none (one arrival at a time)",
             "scenario": {"tag": sc["tag"], "w": sc["w"], "epoch": sc["epoch"], "cap": sc.get("cap", 0), "burst": sc.get("burst", 0),
-                         "arr": [list(a) for a in sc["arr"]]}}
+                         "parts": sc.get("parts"), "arr": [list(a) for a in sc["arr"]]}}
 
 
 def report_rejections(run, scenarios, replies, rejected):
@@ -325,9 +378,11 @@ def report_rejections(run, scenarios, replies, rejected):
 # -------------------------------------------------------------------------------- check
 
 def model_check(run, thorough):
-    cfgs = (["thorough_a", "thorough_b", "thorough_c"] if thorough else ["quick_a", "quick_b", "quick_c"])
-    workers = ({"thorough_a": 4, "thorough_b": 3, "thorough_c": 1} if thorough
-               else {"quick_a": 1, "quick_b": 2, "quick_c": 1})
+    # _m: arrivals carrying up to three receptions (InsertMulti)
+    cfgs = (["thorough_a", "thorough_b", "thorough_c", "thorough_m"] if thorough
+            else ["quick_a", "quick_b", "quick_c", "quick_m"])
+    workers = ({"thorough_a": 4, "thorough_b": 3, "thorough_c": 1, "thorough_m": 3} if thorough
+               else {"quick_a": 1, "quick_b": 2, "quick_c": 1, "quick_m": 1})
     res = {}
     with cf.ThreadPoolExecutor(max_workers=len(cfgs)) as ex:
         futs = {c: ex.submit(core.tlc_ok, "mc/MC_Dedup", cfg=f"mc/MC_Dedup_{c}.cfg", workers=workers[c],
@@ -365,7 +420,7 @@ class Stats:
 
     def add(self, scenarios, replies):
         for sc, rp in zip(scenarios, replies):
-            key = hash((sc["w"], sc["epoch"], tuple(sc["arr"])))
+            key = hash((sc["w"], sc["epoch"], tuple(sc["arr"]), tuple(sc.get("parts") or ())))
             self.distinct.add(key)
             self.n += 1
             self.arrivals += len(sc["arr"])
@@ -493,11 +548,18 @@ def self_test(run):
                 ("wrong receiver", v_rx, True), ("undecodable frame emitted", v_bad, True),
                 ("open groups flushed at close in first-arrival order", v_flush, False),
                 ("open groups flushed in the wrong order", v_flushbad, True), ("record never emitted", v_never, True)]
-    events, starts = [], []
-    for _name, fn, _exp in variants:
+    events, starts, inapplicable = [], [], set()
+    for k, (_name, fn, _exp) in enumerate(variants):
         evs = copy.deepcopy(base)
         if fn:
-            fn(evs)
+            try:
+                fn(evs)
+            except (IndexError, KeyError, TypeError):
+                # the recording of the code under test does not have the record this corruption edits
+                # (the code emitted something else): the variant says nothing; the uncorrupted
+                # recording (variant 0) is still judged below
+                inapplicable.add(k)
+                evs = copy.deepcopy(base)
         starts.append(len(events) + 1)
         events += evs
     path = os.path.join(run.work, "selftest.ndjson")
@@ -515,6 +577,9 @@ def self_test(run):
                     "history is rejected by Trace_Dedup (per-arrival explanation or declarative property at close)"})
         return {"skipped": "the unchanged recording was rejected (reported as a violation)"}
     for k, (name, _fn, exp) in enumerate(variants):
+        if k in inapplicable:
+            res[name] = "not applicable to this recording"
+            continue
         if (k in hit) != exp:
             raise core.ToolError(f"binding self-test: '{name}' was {'rejected' if k in hit else 'accepted'} by Trace_Dedup")
         res[name] = "rejected" if exp else "accepted"
@@ -590,6 +655,13 @@ def check(run):
         samples.append({"tag": special[-1]["tag"], "w_ms": special[-1]["w"], "epoch_s": special[-1]["epoch"],
                         "arrivals[frame,tick_1/8ms,receiver]": [list(a) for a in special[-1]["arr"]],
                         "code_emitted": rp[-1]["out"] if rp[-1] else None})
+        # arrivals carrying several receptions (InsertMulti): variants of the long / attack histories and of
+        # a seeded sample of the short ones
+        mrng = random.Random(run.seed + 77)
+        multis = [multify(sc, mrng) for sc in special]
+        mstats = Stats()
+        process(run, multis, procs, mstats, "multi.special")
+        n_multi_short = 0
         BATCH = 250000
         for c in fam:
             lines = [ln for ln in gen_out[c].out.splitlines() if ln.startswith('"{')]
@@ -610,7 +682,12 @@ def check(run):
                         process_capped(run, batch, rp, [1], procs, bp, c)
                     process_burst(run, batch, rp, [0], procs, qb, f"{c}.{b0 // BATCH}")
 
-                rp = process(run, batch, procs, stats, f"{c}.{b0 // BATCH}", meanwhile=[side, tool_side])
+                def multi_side(rp, batch=batch, c=c, b0=b0):
+                    pick = [multify(sc, mrng) for sc in batch if mrng.random() < (0.25 if thorough else 0.06)]
+                    if pick:
+                        process(run, pick, procs, mstats, f"multi.{c}.{b0 // BATCH}")
+
+                rp = process(run, batch, procs, stats, f"{c}.{b0 // BATCH}", meanwhile=[side, tool_side, multi_side])
                 if b0 == 0:
                     k = len(batch) * 2 // 3
                     samples.append({"tag": batch[k]["tag"], "w_ms": batch[k]["w"],
@@ -641,6 +718,12 @@ def check(run):
         "model_checking": mc_info,
         "spec_mutants_refuted": att_info,
         "binding_self_test": selftest,
+        "multi_reception_arrivals": {
+            "scenarios": mstats.n, "receptions": mstats.arrivals, "records_emitted_by_code": mstats.records,
+            "records_merging_several_receptions": mstats.merged, "rejected": mstats.rejected, "trace_events": mstats.events,
+            "what": "variants of the long / attack histories and of a seeded sample of the short ones in which arrivals carry "
+                    "1-3 receptions (one SensorMetadata each, as the SeRo source hands over); judged by Trace_Dedup!MultiEv "
+                    "(Dedup!InsertMulti ; Pop*) and by the declarative properties at close"},
         "back_pressure": bp,
         "queued_bursts": qb,
         "decode1090": dict(d10, reading="decode1090 (its own copy of the loop, crates/decode1090/src/main.rs) reads a finite "
@@ -691,7 +774,7 @@ def replay(run, path):
     for case in rep.get("cases", []):
         s = case["scenario"]
         scenarios.append({"tag": s["tag"], "w": s["w"], "epoch": s["epoch"], "cap": s.get("cap", 0), "burst": s.get("burst", 0), "tool": s.get("tool", ""),
-                          "arr": [tuple(a) for a in s["arr"]]})
+                          "parts": s.get("parts"), "arr": [tuple(a) for a in s["arr"]]})
     if not scenarios:
         raise core.ToolError("replay file has no cases")
     replies = [None] * len(scenarios)
